@@ -356,8 +356,8 @@ func init() {
 		ID:    "C13",
 		Level: "exploration",
 		Rule: "(1) every TypedBucket setter/getter pair written in one transaction and read in a later one over boundary pools (strings incl. empty, NUL, 0xff, 32 kB; int32/int64 extremes; floats incl. +-0, +-Inf, NaN payloads, subnormals; " +
-			"times at year 1/9999, ns precision, odd zones; nil vs empty string; string lists with duplicates/empty element); (2) random maps/lists nested to depth 4 with nulls, empty containers, int/int32/int64/float32/float64/bool/time through PutMap/GetMap/PutList/GetList; " +
-			"(3) all 2^12 field-checker subsets over 12 fields of all kinds written through TypedBucket setters and through PersistContext wrappers (including nil pointers); (4) compound keys: all lists of length <= 3 over a 7-string alphabet plus random long lists, round trip and pairwise-distinct encodings. " +
+			"times at year 1/9999, ns precision, odd zones; nil vs empty string; string lists with duplicates/empty element); (2) random maps/lists nested to depth 4 (and lists of 255-65537 elements) with nulls, empty containers, int/int32/int64/float32/float64/bool/time through PutMap/GetMap/PutList/GetList; " +
+			"(3) all 2^12 field-checker subsets over 12 fields of all kinds written through TypedBucket setters and through PersistContext wrappers (including nil pointers), the restricted write offering new values and, for half of the subsets, zero values / empty containers / nil containers; (4) compound keys: all lists of length <= 3 over a 7-string alphabet plus random long lists, round trip and pairwise-distinct encodings. " +
 			"non-trivial = distinct (setter, value) / nested value digests / checker subsets / lists",
 		Assumptions: []string{"the reserved list-size key name is not used as a map key", "map keys are non-empty (an empty key is an unusable bolt key: C07)", "NaN compared by bit pattern"},
 		Exhaustive:  func(t core.Tier) bool { return false },
@@ -582,6 +582,24 @@ func c13NestedCase(c *core.Ctx) {
 	if hasEmptyKey(list) {
 		return
 	}
+	// every 8th case: long lists (element keys are binary indexes: 255 / 256 / 257 / 65537 elements cross byte boundaries)
+	if c.CaseIdx%8 == 3 {
+		sizes := []int{255, 256, 257, 300, 1000, 4097}
+		if c.Tier == core.Thorough && (c.CaseIdx/8)%600 == 5 {
+			sizes[5] = 65537
+		}
+		long := make([]any, sizes[(c.CaseIdx/8)%6])
+		for i := range long {
+			long[i] = int64(i)
+		}
+		list = long
+		inner := make([]any, []int{257, 513}[(c.CaseIdx/8)%2])
+		for i := range inner {
+			inner[i] = fmt.Sprintf("e%d", i)
+		}
+		top["longlist"] = inner
+		c.Count("long_lists", 1)
+	}
 	werr := d.update(func(b *boltz.TypedBucket) {
 		b.PutMap("m", map[string]any{"stale": "x"}, nil, true)
 		b.PutMap("m", top, nil, true)
@@ -627,7 +645,15 @@ func c13CheckerCase(c *core.Ctx, part, parts int) {
 	k := len(fields)
 	total := 1 << k
 	for mask := part; mask < total; mask += parts {
-		for _, via := range []bool{false, true} {
+		for vi, via := range []bool{false, true, false, true} {
+			// second state: new non-empty values, then (for half of the subsets) empty / nil values
+			second := 1
+			if vi >= 2 {
+				second = 2 + (mask>>3)%2
+				if mask%2 == 1 {
+					continue
+				}
+			}
 			ck := boltz.MapFieldChecker{}
 			for i, f := range fields {
 				if mask&(1<<i) != 0 {
@@ -658,7 +684,7 @@ func c13CheckerCase(c *core.Ctx, part, parts int) {
 			err = d.update(func(b *boltz.TypedBucket) {
 				pc := mk(b, ck)
 				for _, f := range fields {
-					f.write(b, pc, via, 1, ck)
+					f.write(b, pc, via, second, ck)
 				}
 			})
 			if err != nil {
@@ -672,7 +698,7 @@ func c13CheckerCase(c *core.Ctx, part, parts int) {
 				pc := mk(b, nil)
 				for _, f := range fields {
 					f.write(b, pc, via, 0, nil)
-					f.write(b, pc, via, 1, nil)
+					f.write(b, pc, via, second, nil)
 				}
 				return nil
 			})
@@ -697,12 +723,12 @@ func c13CheckerCase(c *core.Ctx, part, parts int) {
 						if sel {
 							what = "a selected field was not written"
 						}
-						c.Violationf(fmt.Sprintf("C13 field checker: %s (%s, viaPersistContext=%v)", what, f.name, via), map[string]any{"mask": mask, "field": f.name, "via_persist_context": via},
+						c.Violationf(fmt.Sprintf("C13 field checker: %s (%s, viaPersistContext=%v, second state %d)", what, f.name, via, second), map[string]any{"mask": mask, "field": f.name, "via_persist_context": via},
 							"field %s selected=%v expected %s got %s", f.name, sel, short(want), short(got))
 					}
 				}
 			})
-			c.Nontrivial("checker", mask, via)
+			c.Nontrivial("checker", mask, via, second)
 		}
 	}
 	if c.WantSample() {
@@ -795,8 +821,17 @@ func trunc(b []byte) []byte {
 }
 
 func c13S(v int) []any {
-	if v == 0 {
+	switch v {
+	case 0:
 		return c13SA
+	case 2:
+		return c13SC
+	case 3:
+		return c13SD
 	}
 	return c13SB
 }
+
+// "empty" second states: zero values, empty containers (SC) and nil containers (SD) offered for every field
+var c13SC = []any{"", "", int32(0), int64(0), 0.0, false, time.Time{}, []string{}, map[string]any{}, "", []string{}, "req-c"}
+var c13SD = []any{"", "", int32(0), int64(0), math.Copysign(0, -1), false, time.Unix(0, 0).UTC(), []string(nil), map[string]any(nil), "", []string(nil), "req-d"}
